@@ -106,6 +106,8 @@ def classify(gtoks, sc):
         return "resume-handler-goroutine-died"
     if len(set(got)) != len(got) or any(got[k] >= got[k + 1] for k in range(len(got) - 1)):
         return "resume-duplicate-delivery"
+    if sc.get("ended") and sc["stream"] and any(g[0] > sc["stream"][-1][0] for g in got):
+        return "ended-session-still-served"
     if any(g not in exp for g in got):
         return "resume-delivered-not-after-lastseen"
     # got is strictly increasing and within exp: a gap = a message lost
@@ -143,7 +145,7 @@ def ended_tail(sc, toks):
     if any("!timeout" in t or "panic" in t or "deadlock" in t for t in toks):
         return False
     exp = [(i, r, t) for (_, i, r, t) in expected_stream(sc)]
-    final_id = sc["stream"][sum(1 for e in sc["events"][:end + 1] if e[0] == "a") - 1][0]
+    final_id = sc["stream"][sum(1 for e in sc["events"][:end + 1] if e[0] == "a" and e[1] == 0) - 1][0]
     got_all, got_before = [], []
     for k, t in enumerate(toks[:-1]):
         rec = _received(t)
@@ -563,6 +565,11 @@ def step_client(st):
     return None
 
 
+def step_node(st):
+    """["o", c, node]: the request goes to node <node> (1 = the node that lags)"""
+    return st[2] if st[0] == "o" and len(st) > 2 else 0
+
+
 def gen_gm_multi(rng):
     """several sessions, each reading through its own request on the same node, traffic whose reply
     batches have MIXED recipients (a later message for a session that is not addressed by an earlier
@@ -648,6 +655,98 @@ def gen_gm_multi(rng):
     return {"nsess": 3, "steps": steps, "class": "multi-" + pattern}
 
 
+def gen_gm_lag(rng):
+    """the client has read up to X on a caught-up node; its next request (lastseen = X) goes to a node
+    that LAGS: it holds only a prefix of the log (possibly nothing: freshly restarted) and applies
+    the rest while the request is open.  Nothing at or before X may be delivered again, everything
+    after X must arrive."""
+    steps = []
+    nent = 0
+
+    def m(s, line):
+        nonlocal nent
+        steps.append(["m", s, line]); nent += 1
+    for s in (1, 2, 3):
+        m(s, "NICK " + GM_NICKS[s]); m(s, "USER x 0 * :x"); m(s, "JOIN #c")
+
+    def traffic(n):
+        for _ in range(n):
+            k = rng.random()
+            if k < 0.5:
+                m(rng.choice([2, 3]), "PRIVMSG #c :%s" % rng.choice(["hi", "fnord"]))
+            elif k < 0.7:
+                m(2, "PRIVMSG alice :psst")
+            elif k < 0.85:
+                m(1, "WHO #c")
+            else:
+                m(3, "TOPIC #c :t%d" % rng.randint(1, 9))
+    steps.append(["o"])
+    if rng.random() < 0.4:
+        steps.append(["r", rng.randint(1, 4)])       # X inside the welcome burst
+    else:
+        traffic(rng.randint(0, 3))
+        steps.append(["r", 0]); nent += 1
+    traffic(rng.randint(0, 3))
+    steps.append(["x"])
+    pre = rng.choice([0, 0, rng.randint(1, max(1, nent - 1)), nent])   # what the lagging node holds already
+    if pre:
+        steps.append(["A", pre])
+    steps.append(["o", 1, 1])
+    if pre < nent and rng.random() < 0.5:
+        steps.append(["A", rng.randint(1, nent - pre)])              # partial catch-up while the request is open
+    traffic(rng.randint(0, 2))
+    steps.append(["r", 0, 1])
+    if rng.random() < 0.5:
+        traffic(rng.randint(1, 2))
+        steps.append(["r", 0, 1])
+    return {"nsess": 3, "steps": steps, "class": "lagging-node"}
+
+
+def gen_gm_services(rng):
+    """a services link (PASS services=.., SERVER, 0-2 pseudo-clients in 0-1 channels) reads its stream;
+    its session is ended (DeleteSession / QUIT); afterwards a batch for somebody else and then traffic
+    that is sent to services (ircserver keeps flagging the ended link's id - D13) are applied: the
+    request must end and deliver NOTHING produced after the end."""
+    steps = []
+
+    def m(s, line, ends=None):
+        steps.append(["m", s, line] + ([ends] if ends else []))
+    for s in (1, 2):
+        m(s, "NICK " + GM_NICKS[s]); m(s, "USER x 0 * :x"); m(s, "JOIN #c")
+    m(4, "PASS :services=mypass")
+    m(4, "SERVER services.robustirc.net 1 :Services for IRC Networks")
+    pseudo = rng.sample(["ChanServ", "NickServ"], rng.choice([0, 1, 2]))
+    for n in pseudo:
+        m(4, "NICK %s 1 1422134861 services localhost.net services.localhost.net 0 :%s" % (n, n))
+    if pseudo and rng.random() < 0.5:
+        m(4, ":%s JOIN #c" % pseudo[0])
+    steps.append(["o", 4]); steps.append(["r", 0, 4])
+    for _ in range(rng.randint(0, 2)):
+        k = rng.random()
+        if k < 0.4:
+            m(1, "PRIVMSG NickServ :IDENTIFY hunter2")
+        elif k < 0.7:
+            m(2, "NICK bob%d" % rng.randint(1, 9))
+        else:
+            m(1, "PRIVMSG #c :hello")
+    steps.append(["r", 0, 4])
+    if rng.random() < 0.6:
+        steps.append(["D", 4, "killed", 4])
+    else:
+        m(4, "QUIT :bye", 4)
+    m(1, "PING unrelated")                                # a batch for somebody else: the handler notices the end
+    for _ in range(rng.randint(1, 3)):
+        k = rng.random()
+        if k < 0.5:
+            m(1, "PRIVMSG NickServ :IDENTIFY hunter2")    # a user logging in after the link is gone
+        elif k < 0.8:
+            m(2, "NICK robert%d" % rng.randint(1, 9))
+        else:
+            m(3, "NICK carol")
+    steps.append(["f", 4])
+    return {"nsess": 4, "steps": steps, "class": "services-link"}
+
+
 def gm_line(spec):
     toks = ["gm", str(spec["nsess"])]
     for st in spec["steps"]:
@@ -655,8 +754,12 @@ def gm_line(spec):
         at = "" if c in (None, 1) else "@%d" % c
         if st[0] in ("m", "D"):
             toks.append("%s:%d:%s" % (st[0], st[1], st[2].encode().hex()))
+        elif st[0] == "A":
+            toks.append("A:%d" % st[1])
         elif st[0] == "r":
             toks.append("r:%d%s" % (st[1], at))
+        elif st[0] == "o" and step_node(st):
+            toks.append("o@%d/%d" % (c, step_node(st)))
         else:
             toks.append(st[0] + at)
     return " ".join(toks)
@@ -673,35 +776,57 @@ def gm_to_cases(spec, gl):
     lasts = dict(x.split(":") for x in f[-3][2:].split(",")) if f[-3] != "L=-" else {}
     changed = f[-2][2:]
     clients = sorted({step_client(st) for st in spec["steps"] if step_client(st) is not None})
+    if changed == "diverged":
+        return None, "the lagging node produced a different stream from the same log: " + gl[:200]
     res = []
     for c in clients:
         stream, events, toks = [], [], []
+        entries = []            # the log: batch id or None per entry, in order
+        p1 = 0                  # entries node 1 has applied
+        on_node = {}            # client -> node of its current request
+        ended = False           # the reader's session has ended: nothing produced later belongs to its stream
 
-        def add(i):
-            stream.append(stream_by_id[i]); events.append(["a", 0]); toks.append("a=ok")
+        def add0(i):
+            entries.append(i)
+            if i is not None and not ended:
+                stream.append(stream_by_id[i]); events.append(["a", 0]); toks.append("a=ok")
+
+        def node1_applies(n):
+            nonlocal p1
+            for i in entries[p1:p1 + n]:
+                if i is not None and stream_by_id[i] in stream:
+                    events.append(["a", 1]); toks.append("a=ok")
+            p1 += n
         end_event = None
         for st, t in zip(spec["steps"], f[1:-4]):
             val = t.split("=", 1)[1]
             mine = step_client(st) == c
             if st[0] in ("m", "D"):
-                if val != "-":
-                    add(int(val))
-                    if len(st) > 3:
-                        ends = st[3] == c
-                    else:   # scenarios written before readers other than session 1 existed
-                        ends = c == 1 and ((st[0] == "D" and st[1] == 1) or (st[0] == "m" and (
-                            (st[1] == 1 and st[2].startswith("QUIT")) or st[2].startswith("KILL alice"))))
-                    if ends:
+                add0(int(val) if val != "-" else None)
+                if len(st) > 3:
+                    ends = st[3] == c
+                else:   # scenarios written before readers other than session 1 existed
+                    ends = c == 1 and ((st[0] == "D" and st[1] == 1) or (st[0] == "m" and (
+                        (st[1] == 1 and st[2].startswith("QUIT")) or st[2].startswith("KILL alice"))))
+                if ends:
+                    ended = True
+                    if val != "-":
                         end_event = len(events) - 1
+            elif st[0] == "A":
+                node1_applies(int(val))
             elif st[0] == "r" and st[1] == 0:
                 mm = re.match(r"(.*)@(\d+)(!\w+)?$", val)
-                add(int(mm.group(2)))           # the marker batch is part of the stream for every reader
+                add0(int(mm.group(2)))           # the marker batch is part of the stream for every reader
+                if on_node.get(step_client(st), 0) == 1:
+                    node1_applies(len(entries) - p1)
                 if mine:
                     events.append(["r", 0]); toks.append("r=" + mm.group(1) + (mm.group(3) or ""))
+            elif st[0] == "o":
+                on_node[step_client(st)] = step_node(st)
+                if mine:
+                    events.append(["c", step_node(st)]); toks.append("c=ok" if val == "ok" else "c=" + val)
             elif not mine:
                 continue
-            elif st[0] == "o":
-                events.append(["c", 0]); toks.append("c=ok" if val == "ok" else "c=" + val)
             elif st[0] == "x":
                 events.append(["x"]); toks.append("x=ok")
             elif st[0] == "r":
@@ -712,6 +837,8 @@ def gm_to_cases(spec, gl):
               "note": "handler level: real handleGetMessages over ircserver + outputstream, reader of session %d" % c}
         if end_event is not None:
             sc["end_event"] = end_event
+        if ended:
+            sc["ended"] = True
         if c == clients[0] and changed != "ok":
             sc["stream_changed"] = changed
         res.append((sc, " ".join(["res"] + toks + ["last=" + lasts.get(str(c), "0.0")])))
@@ -900,6 +1027,8 @@ def run(ck, replay):
             gm_specs.append(c["gm"])
     if not replay:
         gm_specs += [gen_gm_multi(ck.rng) for _ in range(80 if ck.tier == "quick" else 1000)]
+        gm_specs += [gen_gm_lag(ck.rng) for _ in range(60 if ck.tier == "quick" else 800)]
+        gm_specs += [gen_gm_services(ck.rng) for _ in range(40 if ck.tier == "quick" else 500)]
         gm_specs += [gen_gm(ck.rng) for _ in range(120 if ck.tier == "quick" else 1500)]
         gm_specs += [gen_gm_ended(ck.rng, "a" if k % 3 else "b") for k in range(24 if ck.tier == "quick" else 200)]
     cases = [c for c in cases if "gm" not in c]
